@@ -28,6 +28,8 @@ def rand_history(rng, nsteps):
             ops.append(("setLatBase", latlive.rand_base(rng).tolist()))
         elif k < 0.9:
             ops.append(("copy", None))
+            if rng.random() < 0.5:
+                ops.append(("rot", latlive.rand_rot(rng).tolist()))
         else:
             ops.append(("rot", latlive.rand_rot(rng).tolist()))
     return ops
@@ -90,11 +92,21 @@ def run(ctx):
         rec = M.call("setLatPar", latlive.lat0(), *[S(x) for x in cell], None) if M else None
         ops = rand_history(rng, rng.randint(1, 8 if ctx.tier == "quick" else 25))
         done = []
+        kept = []      # (object that is no longer updated, its attribute record at that moment): copies must not share state
         for op in ops:
             if op[0] in ("setLatPar", "assign") and not valid_after(L, op[1]):
                 continue
+            if op[0] == "copy":
+                kept.append((L, latlive.live_record(L)))
             L = apply_live(L, op)
             done.append(op)
+            for Lold, rec_old in kept:
+                dk = latlive.diff_records(latlive.live_record(Lold), rec_old, tol=0.0)
+                if dk:
+                    ctx.violation("updating a copy changed the lattice it was copied from after %s: %s" % (done, dk[:2]),
+                                  {"start": cell, "ops": done[:], "diff": dk[:4]}, kind="history", key="alias:%s" % dk[0].split(":")[0].split("[")[0])
+                    kept = []
+                    break
             ctx.count(("step", op[0], h, len(done)))
             live = latlive.live_record(L)
             if M:
